@@ -1,0 +1,22 @@
+//go:build verif
+
+package ezicanhazip
+
+// Contracts for the verification machinery in /verif (govc).  This file is
+// comment-only and is compiled only with -tags verif.
+
+// IPv4: every way the lookup can fail is an error for the caller (which
+// reports it and exits non-zero), never a nil dereference.
+//@ func IPv4() (a, err)
+//@   locals res err b err a err
+//@   props C20
+//@   ghost getErr bool = false
+//@   ghost status int = 0
+//@   ghost readErr bool = false
+//@   ghost parseErr bool = false
+//@   ghost nGet int = 0
+//@   on call http.Get(u) (r, e): assert(u == "https://ipv4." + BaseDomain && nGet == 0, "asks_the_ipv4_only_name_once"); getErr = e != nil; if r != nil { status = r.StatusCode }; nGet++
+//@   on call io.ReadAll(rd) (bb, e): assert(!getErr && status == http.StatusOK, "body_read_only_from_an_OK_response"); readErr = e != nil
+//@   on call netip.ParseAddr(s) (ad, e): assert(!readErr, "only_a_completely_read_body_is_parsed"); parseErr = e != nil
+//@   ensures every_failure_is_an_error: imp(getErr || status != http.StatusOK || readErr || parseErr, err != nil)
+//@   ensures asked_once: nGet == 1
